@@ -238,6 +238,8 @@ func init() {
 					for _, a := range []string{"1000", "1000003"} {
 						ops = append(ops, world.Op{K: world.KReward, Denom: rewardDenom, Amt: a, Class: ClsEnv})
 					}
+					// fees in a denom the validators were never rewarded in before (settled in the same withdrawal as the bond denom)
+					ops = append(ops, world.Op{K: world.KReward, Denom: "uusd", Amt: "700001", Class: ClsEnv})
 				}
 				for _, p := range s.Pos {
 					if p.D < 0 {
@@ -262,7 +264,10 @@ func init() {
 			mk := func(name string, budgets []int, depth int) *engine.Scenario {
 				return &engine.Scenario{
 					Property: "C13", Name: name, Cfg: c13Config(), Stores: world.ModuleStores,
-					Seeds: [][]world.Op{c13Seed}, ClassNames: classNames, Budgets: budgets, MaxDepth: depth,
+					// second seed: every validator already has a reward history in the bond denom (one allocation, claimed)
+					Seeds: [][]world.Op{c13Seed, append(append([]world.Op{}, c13Seed...), opReward(rewardDenom, "1000003"),
+						world.Op{K: world.KClaim, D: 0, V: 0, Denom: "aaa"}, world.Op{K: world.KClaim, D: 1, V: 0, Denom: "bbb"}, world.Op{K: world.KClaim, D: 1, V: 1, Denom: "aaa"}, opBlock(1))},
+					ClassNames: classNames, Budgets: budgets, MaxDepth: depth,
 					NewRef: func(w *world.World, root *engine.Node) engine.Ref { return newRewRef() },
 					Ops:    ops, Step: c13Step, SeedStep: true,
 					Required: []string{"reward.allocations", "claim.with_positive_entitlement", "arrive.delegate_new", "arrive.delegate_existing", "arrive.redelegate_new", "arrive.redelegate_existing", "tx.with_rewards_pending_in_distribution", "claim.second_claim_probed"},
@@ -296,7 +301,7 @@ func init() {
 			if tier == "thorough" {
 				return []*engine.Scenario{mk("c13-entitlement", []int{4, 0, 3, 2, 0}, 8), jailed}
 			}
-			return []*engine.Scenario{mk("c13-entitlement", []int{4, 0, 2, 2, 0}, 6), jailed}
+			return []*engine.Scenario{mk("c13-entitlement", []int{3, 0, 2, 2, 0}, 5), jailed}
 		},
 		Assumptions: []string{
 			"no value-changing events (take rates 0, no slashes): those are C12's; rewards in the bond denom; weights 1 (aaa) and 2 (bbb) on a shared validator; stakes of 2.5e5..1e6 base units so the 1e-18 index resolution is negligible",
